@@ -6,6 +6,8 @@ Driver for C12 (batch plumbing of `Model/Decode`; payload = animal id, values at
 frames := `<nf> {<fidx> <vidx> <eff> <np> {<id> <val>}ⁿᵖ}ⁿᶠ`
 `cc  <mi|-> frames`        → `ok <ng> {<n> {<fidx> <vidx> <eff> <id> <val>}ⁿ}ⁿᵍ`   (`centroidCrop`)
 `gen <B> <mi|-> frames`    → same format                      (`predictGen B (centroidCrop mi)`)
+`bu  frames`               → `ok <nf> {<fidx> <vidx> <eff> <n> <id>ⁿ}ⁿᶠ`   (`bottomupRecords`, group = ids, decode = pair)
+`keeptop <mi|-> <np> {<id> <val>}` → `ok <id>…`                        (`keepTop`)
 `chunks <B> <n>`           → `ok <size>…`
 `topk <k> <np> {<id> <val>}` → `ok <id>…`
 -/
@@ -38,6 +40,17 @@ def handle (line : String) : String :=
   | "gen" :: rest =>
     match runP (do let b ← nat; let mi ← onat; let fs ← listOf frameP; pure (b, mi, fs)) rest with
     | some (b, mi, fs) => groupsStr (predictGen b (centroidCrop mi) fs)
+    | none => "bad-op"
+  | "bu" :: rest =>
+    match runP (listOf frameP) rest with
+    | some fs =>
+      let recs := bottomupRecords (fun ps => ps.map (·.pt)) (fun (e : Rat) (g : List Nat) => (e, g)) fs
+      s!"ok {recs.length}" ++ String.join (recs.map fun (f, v, e, g) =>
+        s!" {f} {v} {ratStr e} {g.length}" ++ String.join (g.map fun i => s!" {i}"))
+    | none => "bad-op"
+  | "keeptop" :: rest =>
+    match runP (do let mi ← onat; let ps ← listOf peakP; pure (mi, ps)) rest with
+    | some (mi, ps) => "ok " ++ natsStr ((keepTop mi ps).map (·.pt))
     | none => "bad-op"
   | "chunks" :: rest =>
     match runP (do let b ← nat; let n ← nat; pure (b, n)) rest with
